@@ -17,11 +17,22 @@ pub trait Math: Sized {
     type LogpErr: LogpError + Into<BoxedErr>;   // `err.into()` boxes the error (Box<dyn Error> in /repo)
     spec fn dim_spec(&self) -> nat;
     fn dim(&self) -> (r: usize) ensures r as nat == self.dim_spec();
+    /// ghost history of the density held by this Math value (C05 quantifies over "the sequence of density
+    /// evaluations of a run"): number of evaluations so far, and how many of them ended in an
+    /// unrecoverable error.  One leapfrog / init_state is exactly one evaluation.
+    spec fn evals(&self) -> nat;
+    spec fn fatal_evals(&self) -> nat;
 }
+/// a `&mut math` call that does not evaluate the density
+pub open spec fn no_eval<M: Math>(m0: &M, m1: &M) -> bool { m1.evals() == m0.evals() && m1.fatal_evals() == m0.fatal_evals() }
+/// a `&mut math` call that evaluates the density exactly once; `fatal`: it ended in an unrecoverable error
+pub open spec fn one_eval<M: Math>(m0: &M, m1: &M, fatal: bool) -> bool {
+    m1.evals() == m0.evals() + 1 && m1.fatal_evals() == m0.fatal_evals() + (if fatal { 1nat } else { 0nat })
+}
+/// ghost view of a transformation: version counter and the parameters it applies (as in units adapt / leapfrog)
+pub struct TransView { pub id: int, pub params: Seq<real> }
 
-/// ghost view of a phase-space state: index in the trajectory, total energy, energy at the start
-/// of the trajectory, and `content` standing for (position, gradient, velocity, logp)
-pub struct StateView { pub idx: int, pub energy: real, pub e0: real, pub content: int }
+//@include state_view.rs
 
 pub trait Point<M: Math>: Sized {
     spec fn pview(&self) -> StateView;
@@ -81,15 +92,29 @@ pub trait Collector<M: Math, P: Point<M>> {
     spec fn traj(&self) -> Map<int, StateView>;
     /// states passed to register_draw
     spec fn draws(&self) -> Seq<StateView>;
+    /// what a concrete collector computes from one integrator step ending in `end` (or diverging) resp. from
+    /// register_init: supplied by the implementor (for AcceptanceRateCollector: arc_leapfrog_post / arc_init_post
+    /// of _shared/stepsize_spec.rs, proved for the real impl in unit `stepsize`)
+    spec fn lf_post(&self, post: &Self, end: StateView, diverged: bool) -> bool;
+    spec fn init_post(&self, post: &Self, state: StateView) -> bool;
     fn register_draw(&mut self, math: &mut M, state: &State<M, P>, info: &SampleInfo)
         ensures final(self).draws() == old(self).draws().push(state.view()),
                 final(self).leapfrogs() == old(self).leapfrogs(), final(self).traj() == old(self).traj(),
-                final(math).dim_spec() == old(math).dim_spec();
+                final(math).dim_spec() == old(math).dim_spec(), no_eval(old(math), final(math));
     fn register_init(&mut self, math: &mut M, state: &State<M, P>, options: &NutsOptions)
         ensures final(self).leapfrogs() == 0,
                 final(self).traj() == Map::<int, StateView>::empty().insert(state.view().idx, state.view()),
                 final(self).draws() == old(self).draws(),
-                final(math).dim_spec() == old(math).dim_spec();
+                final(math).dim_spec() == old(math).dim_spec(), no_eval(old(math), final(math)),
+                old(self).init_post(final(self), state.view());
+    /// called by the integrator once per completed step (never after an unrecoverable error)
+    fn register_leapfrog(&mut self, math: &mut M, start: &State<M, P>, end: &State<M, P>, divergence_info: Option<&DivergenceInfo>)
+        ensures final(self).leapfrogs() == old(self).leapfrogs() + 1,
+                final(self).draws() == old(self).draws(),
+                divergence_info is None ==> final(self).traj() == old(self).traj().insert(end.view().idx, end.view()),
+                divergence_info is Some ==> final(self).traj() == old(self).traj(),
+                final(math).dim_spec() == old(math).dim_spec(), no_eval(old(math), final(math)),
+                old(self).lf_post(final(self), end.view(), divergence_info is Some);
 }
 
 pub open spec fn dir_sign(d: Direction) -> int { match d { Direction::Forward => 1, Direction::Backward => -1 } }
@@ -100,6 +125,8 @@ pub trait Hamiltonian<M: Math>: Sized {
     spec fn step(&self) -> real;
     /// U-turn criterion between an earlier (lo) and a later (hi) state of one trajectory
     spec fn turn_spec(&self, lo: StateView, hi: StateView) -> bool;
+    /// the transformation (mass matrix / flow) the Hamiltonian currently applies
+    spec fn trans(&self) -> TransView;
 
     fn leapfrog<C: Collector<M, Self::Point>>(
         &mut self,
@@ -116,7 +143,10 @@ pub trait Hamiltonian<M: Math>: Sized {
             final(self).step() == old(self).step(),
             forall|a: StateView, b: StateView| final(self).turn_spec(a, b) == old(self).turn_spec(a, b),
             final(math).dim_spec() == old(math).dim_spec(),
-            final(collector).leapfrogs() == old(collector).leapfrogs() + 1,
+            // every completed integration step is reported to the collector exactly once (also divergent ones);
+            // an unrecoverable error aborts before the collector is notified
+            !(r is Err) ==> final(collector).leapfrogs() == old(collector).leapfrogs() + 1,
+            r is Err ==> final(collector).leapfrogs() == old(collector).leapfrogs(),
             final(collector).draws() == old(collector).draws(),
             match r {
                 LeapfrogResult::Ok(out) => {
@@ -126,12 +156,22 @@ pub trait Hamiltonian<M: Math>: Sized {
                 },
                 LeapfrogResult::Divergence(_) => final(collector).traj() == old(collector).traj(),
                 LeapfrogResult::Err(e) => final(collector).traj() == old(collector).traj() && !e.recoverable(),
+            },
+            final(self).trans() == old(self).trans(),
+            // one leapfrog is one density evaluation; it returns Err exactly when that evaluation failed unrecoverably
+            one_eval(old(math), final(math), r is Err),
+            // the collector is notified through register_leapfrog(start, out, divergence?) (not on Err)
+            match r {
+                LeapfrogResult::Ok(out) => old(collector).lf_post(final(collector), out.view(), false),
+                LeapfrogResult::Divergence(_) => exists|e: StateView| #[trigger] old(collector).lf_post(final(collector), e, true),
+                LeapfrogResult::Err(_) => true,
             };
 
     fn is_turning(&self, math: &mut M, state1: &State<M, Self::Point>, state2: &State<M, Self::Point>) -> (r: bool)
         ensures
-            final(math).dim_spec() == old(math).dim_spec(),
-            r == (if state1.view().idx <= state2.view().idx { self.turn_spec(state1.view(), state2.view()) }
+            final(math).dim_spec() == old(math).dim_spec(), no_eval(old(math), final(math)),
+            // order-normalised by trajectory index (C01.5): the earlier state comes first
+            r == (if state1.view().idx < state2.view().idx { self.turn_spec(state1.view(), state2.view()) }
                   else { self.turn_spec(state2.view(), state1.view()) });
 
     fn initialize_trajectory<R: Rng + ?Sized>(
@@ -142,10 +182,21 @@ pub trait Hamiltonian<M: Math>: Sized {
         rng: &mut R,
     ) -> (r: core::result::Result<(), NutsError>)
         ensures
-            final(math).dim_spec() == old(math).dim_spec(),
+            final(math).dim_spec() == old(math).dim_spec(), no_eval(old(math), final(math)),
             r is Ok ==> final(state).view().idx == 0 && final(state).view().e0 == final(state).view().energy,
             resaple_velocity ==> final(rng).log() == old(rng).log().push(RngEv::Momentum),
             !resaple_velocity ==> final(rng).log() == old(rng).log();
 
     fn step_size(&self) -> (r: F) ensures r.r() == self.step();
+    fn step_size_mut(&mut self) -> (r: &mut F)
+        ensures r.r() == old(self).step(), final(self).step() == final(r).r(), final(self).trans() == old(self).trans();
+    /// one density evaluation at `init`; ANY failure of it (recoverable or not, non-finite value/gradient) is an Err
+    fn init_state(&mut self, math: &mut M, init: &[F]) -> (r: core::result::Result<State<M, Self::Point>, NutsError>)
+        ensures final(math).dim_spec() == old(math).dim_spec(), final(self).trans() == old(self).trans(), final(self).step() == old(self).step(),
+                exists|fatal: bool| #[trigger] one_eval(old(math), final(math), fatal) && (fatal ==> r is Err);
+    /// an independent copy of an already evaluated state (no density evaluation)
+    fn copy_state(&mut self, math: &mut M, state: &State<M, Self::Point>) -> (r: State<M, Self::Point>)
+        ensures final(math).dim_spec() == old(math).dim_spec(), no_eval(old(math), final(math)),
+                final(self).step() == old(self).step(), final(self).trans() == old(self).trans(),
+                r.view() == state.view();
 }
